@@ -258,7 +258,10 @@ def run(repo, rep):
     from ..symval import INPLACE_EVENTS
     from . import common
     del INPLACE_EVENTS[:]
+    from ..symval import TRUNC_EVENTS
+    del TRUNC_EVENTS[:]
     _run(repo, rep)
+    common.truncation_rule(repo, rep, 'R-TRUNC::geodepy/transform.py::epoch-handling', 'the ATRF wrappers, conform14 and the epoch propagation at the concrete epochs')
     # in-place array updates met while evaluating the functions above (element type follows the caller's numbers)
     common.dtype_rule(repo, rep, [('geodepy.transform', 'conform7'), ('geodepy.transform', 'conform14')])
 
